@@ -21,7 +21,7 @@ from __future__ import annotations
 import itertools
 
 from ..absint import Lin, Obj, SliceV, Sym, Unmodelled
-from ..affsel import Sel
+from ..affsel import Sel, ZeroStep
 from ..facepad import AX, AY, FACE, axis_of_dim, face_parts, halo_pieces, norm_form, run, table_for
 from ..harness import foreign_ops
 from ..geometry import link_table
@@ -136,6 +136,10 @@ def check_link_cells(ctx, P, vectors, rule_of=None, floor_rule="R05.1"):
                             faces, facedim, trim = face_parts(o.value)
                             _, leaves = flatten_concat(faces[0], FACE, axis_of_dim)
                             forms = [norm_form(p) for p in leaves]
+                        except ZeroStep:
+                            for (is_right, swap, reverse), nb in cells:
+                                verdict.setdefault((is_right, swap, reverse, vector), {}).setdefault("R05.1", f"a halo is selected with a slice of step 0: indexing raises ValueError (slice step cannot be zero) [{tag}]")
+                            continue
                         except Unmodelled as e:
                             ctx.unknown(rule_of("R05.1"), tag, str(e))
                             continue
